@@ -1,7 +1,7 @@
 From Coq Require Import NArith List Bool.
 Import ListNotations.
 From SK Require Import model.C14_Model proof.C14_Proof proof.C14_Batch proof.C14_Cluster model.C14_CrnModel proof.C14_Crn
-  model.C14_WorkersModel proof.C14_Workers.
+  model.C14_WorkersModel proof.C14_Workers model.C14_BenchModel proof.C14_Bench.
 Local Open Scope N_scope.
 
 (** Pinned key discipline (the repaired code): for EVERY allocator and collector behaviour (every legal
@@ -202,3 +202,36 @@ Theorem C14_rule_task_workers :
     map snd outs = [execute (nth (N.to_nat s) cs 0) (nth (N.to_nat r) cs 0) inv].
 Proof. exact rule_task_transparent. Qed.
 Print Assumptions C14_rule_task_workers.
+
+(** Fit calls whose entry list differs from call to call on ONE BatchReactor object (same applier, same cache; model
+    coq/model/C14_BenchModel.v): for every legal trace whose client part is the program of the calls, each call's outputs are,
+    per entry of THAT call, the rules applied to that entry alone in the call's direction — nothing an earlier call processed
+    (other entries, other direction) can leak into a later one. *)
+Theorem C14_calls_are_maps :
+  forall (execute : N -> N -> bool -> list N) (cache_on : bool) (cmax : nat) (dd : bool)
+         (pool : list N) (calls : list call2)
+         (tr : list event) (outs : list (bool * list N)) (fin : state (list N)),
+    run (list N) execute true cache_on cmax (init _) tr = (true, outs, fin) ->
+    client_view tr = batch_prog2 pool calls ->
+    Forall (fun call : call2 => Forall (fun r => match r with RStr _ => True | RObj o => (N.to_nat o < length pool)%nat end)
+                                  (fst (fst call))) calls ->
+    fit_outputs2 dd calls (map snd outs) =
+    map (fun call : call2 => map (single execute dd (map (rule_content pool) (fst (fst call))) (snd (fst call))) (snd call)) calls.
+Proof. exact calls_are_maps. Qed.
+Print Assumptions C14_calls_are_maps.
+
+(** The Benchmark facade (benchmark.py): fit = a forward fit over the reactant sides followed by a backward fit over the product
+    sides on the same object (host_key re-pointed in between); entry k receives exactly (rules applied forward to its reactant
+    side alone, rules applied backward to its product side alone). *)
+Theorem C14_bench_is_map :
+  forall (execute : N -> N -> bool -> list N) (cache_on : bool) (cmax : nat) (dd : bool)
+         (pool : list N) (rules : list rspec) (subs_r subs_p : list N)
+         (tr : list event) (outs : list (bool * list N)) (fin : state (list N)),
+    run (list N) execute true cache_on cmax (init _) tr = (true, outs, fin) ->
+    client_view tr = batch_prog2 pool (bench_calls rules subs_r subs_p) ->
+    Forall (fun r => match r with RStr _ => True | RObj o => (N.to_nat o < length pool)%nat end) rules ->
+    bench_entries (fit_outputs2 dd (bench_calls rules subs_r subs_p) (map snd outs)) =
+    combine (map (single execute dd (map (rule_content pool) rules) false) subs_r)
+            (map (single execute dd (map (rule_content pool) rules) true) subs_p).
+Proof. exact bench_is_map. Qed.
+Print Assumptions C14_bench_is_map.
